@@ -19,6 +19,49 @@ func init() {
 	scenarios["c18.badchan"] = scC18BadChan
 	scenarios["c08.reuse"] = scC08Reuse
 	scenarios["c18.backlog"] = scC18Backlog
+	scenarios["c18.closeblocked"] = scC18CloseBlocked
+}
+
+// c18.closeblocked: the client is closed while one of its handler goroutines has been holding the connection's writer for more
+// than a second (a large reverse-call response to a peer that does not read). The close frame waits for its turn like every other
+// write; once the peer reads again everything completes and the closer returns.
+func scC18CloseBlocked(w *World, a Args, rng *rand.Rand) error {
+	A, err := w.NewClient(ClientOpts{Name: "A", NoPing: true, Reverse: true, NoReconnect: true})
+	if err != nil {
+		return err
+	}
+	pc := w.Proxy.Last()
+	w.Plan(1, &Plan{})
+	d1 := make(chan struct{})
+	go func() {
+		defer close(d1)
+		ctx, cancel := context.WithTimeout(context.Background(), 6*time.Second)
+		defer cancel()
+		A.Call(ctx, "callbackbig", 1, a.Int("size", 16<<20))
+	}()
+	dl := time.Now().Add(2 * time.Second)
+	for started := false; !started && time.Now().Before(dl); time.Sleep(time.Millisecond) {
+		for _, e := range w.Rec.Events() {
+			if e["ev"] == "RevStart" && e["call"] == 1 {
+				started = true
+			}
+		}
+	}
+	pc.Stall(C2S, true) // the server stops reading: the reverse handler's answer will not fit into the socket buffers
+	w.Release(1)
+	time.Sleep(400 * time.Millisecond) // the reverse handler is writing its response and sits blocked in the socket by now
+	closed := make(chan bool, 1)
+	go func() { closed <- w.CloseClient(A) }()
+	time.Sleep(time.Duration(a.Int("holdms", 1500)) * time.Millisecond)
+	pc.Stall(C2S, false)
+	returned := false
+	select {
+	case returned = <-closed:
+	case <-time.After(patience(6 * time.Second)):
+	}
+	waitCh(d1, patience(3*time.Second))
+	w.Rec.Emit("Quiesce", "cli", "", "probe", "none", "waiting", intsOrEmpty(w.Waiting()), "lost", []int{}, "closerReturned", returned)
+	return nil
 }
 
 // c18.backlog: the client is closed while a subscription has tens of thousands of values nobody has read yet; the closer returns
